@@ -14,10 +14,11 @@ SPEC = dict(
          'error, finalResult (result/error code and identity of the last rule and last policy evaluated), policyResults length and '
          'entries. Distinct = distinct tree/chain text; non-trivial = every case (each reaches oracle comparisons).',
     bounds=dict(
-        quick='all rule trees with <= 4 basic rules and nesting depth <= 2 (8384 trees) x all reachable assignments of 5 outcomes; '
-              'all trees with <= 3 rules, depth <= 2 (811) x 6 outcomes (incl. result left unwritten); fallback chains of length 0..3 '
-              '(1..4 policies) over all trees with <= 2 rules and depth <= 1 per policy (14^1+14^2+14^3+14^4 = 41370 chains) x all '
-              'reachable assignments of 5 outcomes, run with a parsed sample signature in the verification context',
+        quick='all rule trees with <= 5 basic rules and nesting depth <= 2 (86627 trees) x all reachable assignments of 5 outcomes; '
+              'all trees with <= 3 rules, depth <= 2 (811) x 6 outcomes (incl. result left unwritten); fallback chains of length 0..2 '
+              '(1..3 policies) over all trees with <= 2 rules and depth <= 1 per policy (14+14^2+14^3 chains) and of length 3 over all '
+              'trees with 1 rule and depth <= 1 (3^4 chains) x all reachable assignments of 5 outcomes, run with a parsed sample '
+              'signature in the verification context',
         thorough='all rule trees with <= 5 rules and nesting depth <= 3 (5835763 trees), with 6 and 7 rules and depth <= 2 (808395 + 8352217 '
                  'trees) x all reachable assignments of 5 outcomes; trees with <= 4 rules depth <= 2 and 5 rules depth <= 1 x 6 outcomes; '
                  'fallback chains of length 0..2 over all trees with <= 2 rules and depth <= 2 per policy (78+78^2+78^3 chains) and of '
